@@ -229,6 +229,9 @@ class Explorer:
             self.items = self.items[:n_off]
             self.pair_items = [k for k in range(1, n_off)][:8]
         self.h0 = 2 * U_UNIT
+        self.catch = False
+        self.hook = None
+        self.wfac = None  # optional per-design width factors (C06/C07 runs: unique acquisition maximisers)
         self.violations = []
         self.terminal_P = set()
 
@@ -261,12 +264,14 @@ class Explorer:
 
     def canon(self, st):
         fr = tuple(sorted((i, tuple(np.round(np.concatenate([np.ravel(x) for x in r[1:]]), 9))) for i, r in st["frozen"].items()))
-        return (tuple(sorted(st["S"])), tuple(sorted(st["P"])), tuple(sorted(st["U"])), st["layer"], st["budget"], fr)
+        return (tuple(sorted(st["S"])), tuple(sorted(st["P"])), tuple(sorted(st["U"])), st["layer"], st["budget"], fr, st.get("total_cost"))
 
     def step(self, st, ev):
         alg = copy.deepcopy(self.tmpl)
         rnd = st["layer"]
         stepmc.inject(alg, st["S"], st["P"], st["U"], rnd=rnd)
+        if "total_cost" in st and hasattr(alg, "total_cost"):
+            alg.total_cost = st["total_cost"]
         for i, r in st["frozen"].items():
             stepmc.set_region_direct(alg, i, r)
         active = stepmc.active_set(alg)
@@ -274,7 +279,7 @@ class Explorer:
         targets = {}
         for i in active:
             item = self.items[ev.get(i, 0)]
-            targets[i] = make_region(self.kind, item, self.mu[i], h)
+            targets[i] = make_region(self.kind, item, self.mu[i], h * (self.wfac[i] if self.wfac is not None else 1.0))
         if self.alg_name == "Auer":
             stepmc.set_display(alg, {i: ("c", (t[1] + t[2]) / 2.0, None) for i, t in targets.items()})
         elif self.alg_name == "PaVeBa":
@@ -285,7 +290,17 @@ class Explorer:
             stepmc.set_display(alg, targets)
         self.res["evaluations"] += 1
         self.res["transitions"] += 1
-        done = alg.run_one_step()
+        pre = stepmc.snapshot(alg)
+        if self.catch:
+            try:
+                done = alg.run_one_step()
+            except Exception as e:  # noqa
+                self.on_crash(st, ev, alg, pre, e)
+                return None, None, targets
+        else:
+            done = alg.run_one_step()
+        if self.hook is not None:
+            self.hook(self, st, ev, alg, pre, done, targets)
         regs = stepmc.read_regions(alg, sorted(active | set(alg.P)))
         # harness self-check: the premise (truth inside every displayed active region) really holds
         for i in active:
@@ -295,6 +310,8 @@ class Explorer:
         U2 = set(getattr(alg, "U", ()))
         frozen = {i: regs[i] for i in P2 - U2} if self.fam == "paveba" else {}
         st2 = {"S": S2, "P": P2, "U": U2, "layer": st["layer"] + 1, "budget": st["budget"] - (1 if ev else 0), "frozen": frozen}
+        if hasattr(alg, "total_cost"):
+            st2["total_cost"] = float(alg.total_cost)
         return st2, bool(done), targets
 
     def check_state(self, st, path):
@@ -320,9 +337,15 @@ class Explorer:
                     continue
                 alg_probe_active = (set(st["S"]) | set(st["U"])) if self.fam == "paveba" else ((set(st["S"]) | set(st["P"])) if self.fam == "vogp" else set(st["S"]))
                 for ev in self.events(st, alg_probe_active):
-                    st2, done, _ = self.step(st, ev)
                     p2 = path + [{str(k): v for k, v in ev.items()}]
-                    bad = self.check_state(st2, p2)
+                    self.cur_path = p2
+                    st2, done, _ = self.step(st, ev)
+                    if st2 is None:
+                        if len(self.violations) >= 3:
+                            return
+                        continue
+                    self.last_path = p2
+                    bad = self.check_state(st2, p2) if self.prop in ("C01", "C05") else None
                     if bad:
                         # a state-invariant failure is only reported once the default (centred)
                         # continuation has been run to termination and the terminal conclusion fails
@@ -366,9 +389,16 @@ class Explorer:
         return st, path
 
     def run_path(self, st, path):
+        done_path = []
         for ev in path:
             ev = {int(k): v for k, v in ev.items()}
+            done_path.append({str(k): v for k, v in ev.items()})
+            self.cur_path = list(done_path)
             st, done, _ = self.step(st, ev)
+            if st is None:
+                return
+        if self.prop not in ("C01", "C05"):
+            return
         bad = self.check_state(st, path)
         if bad:
             self.report(bad, st, path)
